@@ -3,12 +3,22 @@ from common import *
 from props.base import *
 
 PID = "C03"
-RULE = ("exists/for_all/var_exists/var_for_all/binary_op_with_exists/binary_op_with_for_all/binary_op_nested: every function pair of <=2 "
+RULE = ("exists/for_all/var_exists/var_for_all (and the deprecated aliases project/var_project)/binary_op_with_exists/binary_op_with_for_all/binary_op_nested: every function pair of <=2 "
         "variables x every variable subset (as a list in random order with random repetitions), random operands over 3..8 variables with "
         "skipped levels and non-canonical operands, random outer tables (all 16 connectives), random trigger predicates with inner or/and "
         "(lazy and eager table forms). relation: canon(impl)=canon(model) where the model is operate-then-project-one-variable-at-a-time. "
         "non-trivial = non-constant operands, at least one quantified variable in the operand's support... (counted: result >=1 node, operands >=3 nodes, "
-        "non-empty variable list)")
+        "non-empty variable list). "
+        "LARGE operands (model side: the proved-equal fast nested apply, Model/NestedFast.v, Proofs/NestedFast.v): exists/for_all of a random "
+        "function of 20 variables (>70,000 nodes; the result store and the inner-engine tasks exceed 65,536) over two variables of the lower "
+        "levels; bin_exists/bin_for_all of a small function of 2..3 of the same variables and the large one (large operand on the right; "
+        "thorough: also on the left, a middle variable, nested with a trigger vector and inner or/and); exists/for_all x_k of "
+        "f = (if x0 then G else if x1 then A else B) over 22 variables, k = 1, G random and independent of x1 (>100,000 nodes, left unchanged by "
+        "the projection), A and B random functions of five odd resp. even variables: the inner engine runs on fresh store pointers above "
+        "65,536, one side descending at a time; medium operands "
+        "over 10..11 variables. "
+        "Results above 400 nodes are compared as arrays with the (proved canonical) model result; failing-input oracle there: raw evaluation "
+        "of the operands over all assignments of the quantified variables, on 3000 random valuations")
 
 
 def dup_perm(rng, xs):
@@ -17,6 +27,33 @@ def dup_perm(rng, xs):
     out = xs + extra
     rng.shuffle(out)
     return out
+
+
+def partial_conn(rng):
+    """consistent partial table of a connective that depends on both arguments"""
+    conns = [c for c in CONNS if (c[0], c[1]) != (c[2], c[3]) and (c[0], c[2]) != (c[1], c[3])]
+    return partial_table(rng, rng.choice(conns))
+
+
+def split_operand(rng, nv=22):
+    """f = if x0 then G else (if x1 then A else B) over nv variables, to be projected on x1: G is a random function of the
+    variables 2..nv-1 (about 107,000 nodes for nv = 22; independent of x1, so the projection leaves it unchanged and the
+    result store is above 65,536 nodes when the x0 = 0 half is processed), A and B are random functions of five variables
+    each, drawn from the odd resp. even variables (interleaved supports: the inner engine, combining B with A, pairs ADJACENT
+    fresh store pointers above 65,536 with the same partner, one side descending at a time).  Returns (array of f, 1)."""
+    mask = tt_mask(nv)
+    v0, v1 = tt_var(nv, 0), tt_var(nv, 1)
+    r = big_random_tt(rng, nv)
+    c0 = r & ~v1 & mask
+    g = c0 | (c0 >> (1 << (nv - 2)))           # independent of x1
+    odd = sorted(rng.sample([x for x in range(2, nv) if x % 2 == 1], 5))
+    even = sorted(rng.sample([x for x in range(2, nv) if x % 2 == 0], 5))
+    if rng.random() < 0.5:
+        odd, even = even, odd
+    a = tt_of_small(nv, odd, [rng.random() < 0.5 for _ in range(32)])
+    b = tt_of_small(nv, even, [rng.random() < 0.5 for _ in range(32)])
+    f = (v0 & g) | (~v0 & mask & ((v1 & a) | (~v1 & mask & b)))
+    return big_bdd_from_tt(nv, tt_to_bytes(nv, f)), 1
 
 
 def subsets(n):
@@ -38,6 +75,9 @@ def programs(rng, tier):
                 P.add([rng.choice(["exists", "for_all"]), bdd_sx(a), vs])
             for x in range(nv):
                 P.add([rng.choice(["var_exists", "var_for_all"]), bdd_sx(a), str(x)])
+            # the deprecated aliases project / var_project (= exists / var_exists)
+            P.add(["project", bdd_sx(a), ["L"] + [str(x) for x in dup_perm(rng, rng.choice(list(subsets(nv))))]])
+            P.add(["var_project", bdd_sx(a), str(rng.randrange(nv))])
         pairs = [(a, b) for a in fs for b in fs]
         if len(pairs) > 300 and tier == "quick":
             pairs = rng.sample(pairs, 300)
@@ -53,15 +93,50 @@ def programs(rng, tier):
         vs = ["L"] + [str(x) for x in dup_perm(rng, xs)]
         k = rng.random()
         if k < 0.2:
-            P.add([rng.choice(["exists", "for_all"]), bdd_sx(a), vs])
+            P.add([rng.choice(["exists", "for_all", "project"]), bdd_sx(a), vs])
         elif k < 0.3:
-            P.add([rng.choice(["var_exists", "var_for_all"]), bdd_sx(a), str(rng.randrange(nv))])
+            P.add([rng.choice(["var_exists", "var_for_all", "var_project"]), bdd_sx(a), str(rng.randrange(nv))])
         elif k < 0.65:
             P.add([rng.choice(["bin_exists", "bin_for_all"]), partial_table(rng, rng.choice(CONNS)), bdd_sx(a), bdd_sx(b), vs])
         else:
             trig = "v" + "".join(rng.choice("01") for _ in range(rng.choice([nv, nv, max(0, nv - 2), nv + 2])))
             inner = OR_T() if rng.random() < 0.5 else AND_T()
             P.add(["nested", partial_table(rng, rng.choice(CONNS)), inner, bdd_sx(a), bdd_sx(b), trig])
+    # large operands: outer/inner task caches keyed by pointer pairs, store above 65,536 nodes
+    BIG_NV = 20
+    for r in range(1 if tier == "quick" else 3):
+        big = big_random_bdd(rng, BIG_NV)
+        assert len(big) > 70000
+        bs = bdd_sx(big)
+        low = lambda k: ["L"] + [str(x) for x in dup_perm(rng, rng.sample(range(14, BIG_NV), k))]
+        P.add([rng.choice(["exists", "for_all"]) if tier == "thorough" else "exists", bs, low(2)])
+        small = small_fn_tt(rng, BIG_NV)[0]
+        sv = sorted({n[0] for n in small[2:]})
+        P.add([rng.choice(["bin_exists", "bin_for_all"]) if tier == "thorough" else "bin_exists",
+               partial_conn(rng),
+               bdd_sx(small), bs, ["L", str(rng.choice(sv)), str(rng.randrange(15, BIG_NV))]])
+        # inner engine on store pointers above 65,536 with skipped levels
+        f, k = split_operand(rng)
+        assert len(f) > 70000 and is_canonical(f)[0]
+        P.add([rng.choice(["exists", "for_all"]), bdd_sx(f), ["L", str(k)]])
+        if tier == "thorough":
+            P.add(["for_all", bs, low(1)])
+            P.add(["exists", bs, ["L", str(rng.randrange(8, 14))]])
+            P.add(["bin_for_all", partial_conn(rng), bs, bdd_sx(small), ["L", str(rng.choice(sv)), str(rng.randrange(15, BIG_NV))]])
+            trig = "v" + "".join("1" if (x in sv[:1] or x == 17) else "0" for x in range(BIG_NV))
+            P.add(["nested", partial_conn(rng), OR_T() if rng.random() < 0.5 else AND_T(), bdd_sx(small), bs, trig])
+    for _ in range(3 if tier == "quick" else 30):
+        mv = rng.choice([10, 11])
+        x, y = big_random_bdd(rng, mv), big_random_bdd(rng, mv)
+        vs = ["L"] + [str(v) for v in dup_perm(rng, rng.sample(range(mv), 2))]
+        k = rng.randrange(3)
+        if k == 0:
+            P.add([rng.choice(["exists", "for_all"]), bdd_sx(x), vs])
+        elif k == 1:
+            P.add([rng.choice(["bin_exists", "bin_for_all"]), partial_conn(rng), bdd_sx(x), bdd_sx(y), vs])
+        else:
+            trig = "v" + "".join("1" if str(v) in vs else "0" for v in range(mv))
+            P.add(["nested", partial_conn(rng), OR_T() if rng.random() < 0.5 else AND_T(), bdd_sx(x), bdd_sx(y), trig])
     # iterated var_exists equals exists (array equality through the API)
     for _ in range(150 if tier == "quick" else 3000):
         nv = rng.choice([3, 4, 5])
@@ -90,6 +165,8 @@ def judge(st, V):
                                           oracle={"exists": sx_str(call[1]), "iterated": sx_str(call[2])}, relation="== of arrays"))
         return
     judge_semantic(PID, st, V, min_result_nodes=1)
+    if any(is_bdd(x) and len(x) > 3 * 65536 for x in call[1:]):
+        V.count("large-operand(>65536 nodes):" + call[0])
     k = key_of(call)
     if k in V.nontrivial:
         # needs a non-empty quantified set
